@@ -460,6 +460,67 @@ def run(ctx) -> Report:
         if r is not None and hasattr(r, "cls") and r.cls is not None and r.cls.name not in ("Expr",) and t.name not in lifted and not any(k.name in lifted for k in t.cls.mro()[:2]):
             missing.append(t.name)
     rep.info("C24-op", "ufl", f"operator types with an evaluate method that were not lifted: {sorted(missing)}")
+    # ---- terminals: the value handed in by the user (a nested sequence or a callable) read at the requested component ----
+    tcls = prog.get_class("ufl.core.terminal.Terminal")
+    tev = prog.lookup(tcls, "evaluate")
+    if tev is None:
+        raise AnalysisError("Terminal.evaluate not found")
+    n_term = 0
+    for shape in ((), (3,), (2, 3), (3, 2), (2, 2, 3)):
+        ip = Interp(prog)
+        ip.overrides["warnings"] = Obj("warnings", warn=lambda *a, **k: None)
+        me = Obj("terminal", __class__=tcls, ufl_shape=shape)
+
+        def nested(sh, prefix=()):
+            return sym.sym("t" + "".join(f"[{k}]" for k in prefix)) if not sh else tuple(nested(sh[1:], prefix + (k,)) for k in range(sh[0]))
+
+        def nested_d(sh, prefix=()):
+            return sym.sym("dt" + "".join(f"[{k}]" for k in prefix)) if not sh else tuple(nested_d(sh[1:], prefix + (k,)) for k in range(sh[0]))
+
+        value = nested(shape)
+        dvalue = nested_d(shape)
+        point = Obj("point")
+
+        def fn(x, derivatives=None, value=value, dvalue=dvalue):
+            return value if derivatives is None else dvalue
+
+        class Mapping(dict):
+            __lift_host__ = True
+
+        for how, entry, derivs in (("a nested tuple", value, ()), ("a callable", fn, ()), ("a callable asked for a derivative", fn, (0,))):
+            m = Mapping()
+            m[id(me)] = entry
+            m.get = lambda key, default=None, m=m: dict.get(m, id(key), default)  # looked up by the terminal itself
+            bad = None
+            for comp in itertools.product(*[range(d) for d in shape]):
+                try:
+                    got = ip.call_function(tev, [point, m, tuple(comp), None] + ([derivs] if derivs else []), {}, self_obj=me)
+                except LiftRaise as ex:
+                    bad = f"component {comp}: raises {ex.what[:80]}"
+                    break
+                want = sym.sym(("dt" if derivs else "t") + "".join(f"[{k}]" for k in comp))
+                if not (isinstance(got, sym.Ex) and sym.equal(got, want, rng=ctx.rng)[0]):
+                    bad = f"component {comp}: evaluates to {sym.show(got) if isinstance(got, sym.Ex) else got!r}, the value handed in there is {sym.show(want)}"
+                    break
+                n_term += 1
+            what = f"Terminal of shape {shape} mapped to {how}"
+            if bad:
+                rep.violation("C24-terminal", tev, what, f"{what}: {bad}")
+            else:
+                rep.ok("C24-terminal", tev, f"{what}: every component reads the entry of the user's value at that component")
+        # a constant value (no callable) has zero derivatives
+        m = Mapping()
+        m[id(me)] = value
+        m.get = lambda key, default=None, m=m: dict.get(m, id(key), default)
+        try:
+            got = ip.call_function(tev, [point, m, tuple(0 for _ in shape), None, (0,)], {}, self_obj=me)
+            if got == 0:
+                rep.ok("C24-terminal", tev, f"Terminal of shape {shape} mapped to a constant: derivatives are zero")
+            else:
+                rep.violation("C24-terminal", tev, f"Terminal of shape {shape}, derivative of a constant value", f"the derivative of a terminal mapped to a constant evaluates to {got!r}")
+        except LiftRaise as ex:
+            rep.violation("C24-terminal", tev, f"Terminal of shape {shape}, derivative of a constant value", f"raises {ex.what[:80]}")
+    rep.require_min("C24-terminal", 15)
     rep.require_min("C24-op", 45)
     rep.require_min("C24-comp", 14)
     rep.require_min("C24-stack", 6)
@@ -468,5 +529,5 @@ def run(ctx) -> Report:
         "components and free-index assignments, with the node's mathematical value (reference models); operands reject "
         "ill-fitting components and unbound indices, and the index binding table must be restored after each evaluation."
     )
-    rep.assumptions = ["StackDict push/pop semantics as modelled in this rule", "Bessel functions (scipy), terminal lookup in the user mapping and derivative callables are not lifted", "math/cmath function names map to the elementary functions of the same name (log = ln)"]
+    rep.assumptions = ["StackDict push/pop semantics as modelled in this rule", "Bessel functions (scipy) are not lifted; terminals: the lookup of a mapped value (nested sequence or callable, with and without a derivative request) is lifted, the fallbacks for unmapped terminals are not", "math/cmath function names map to the elementary functions of the same name (log = ln)"]
     return rep
